@@ -205,6 +205,17 @@ class Flow:
         if isinstance(e, (ast.Attribute, ast.Subscript)):
             if isinstance(e, ast.Subscript) and isinstance(
                     e.slice, ast.Constant) and isinstance(
+                        e.slice.value, int) and e.slice.value >= 0 and \
+                    isinstance(e.value, ast.Name) and fn is not None:
+                # entry[1] for `for entry in zip(a, b, c)` / a table of rows
+                c = self._comp_binding(e.value, fn)
+                if c is not None and c[1] is None and isinstance(
+                        c[0], ast.Call) and unparse(c[0].func) in (
+                            'zip', 'enumerate'):
+                    return self.iter_atoms(c[0], e.slice.value, fn, bind,
+                                           depth, _seen)
+            if isinstance(e, ast.Subscript) and isinstance(
+                    e.slice, ast.Constant) and isinstance(
                         e.slice.value, int) and self._selectable(
                             e.value, fn, depth):
                 el = self.elem_atoms(e.value, e.slice.value, fn, bind, depth,
@@ -772,6 +783,16 @@ class Flow:
         if r is not None and r[0] == 'value' and r[3] is not None and \
                 depth < self.max_depth:
             sub = self.atoms(r[3], None, None, depth + 1, _seen)
+            if not isinstance(r[3], ast.Constant):
+                # a named constant computed from other constants
+                # (`_reserved = _long + 'x-'`): its folded value
+                try:
+                    from .consteval import const_eval
+                    v = const_eval(self.repo, r[1], r[3])
+                except Exception:
+                    v = None
+                if isinstance(v, (str, int)) and not isinstance(v, bool):
+                    sub = sub | {'const:' + repr(v)}
             return sub | {name}
         return {name}
 
@@ -873,6 +894,24 @@ class Flow:
             c = self._comp_binding(k, fn)
             if c is not None:
                 rows = self.const_rows(c[0], fn, bind)
+                if rows is None:
+                    # a table with other cells too: this column only
+                    tr = self.table_rows(c[0], fn, bind)
+                    if tr is not None:
+                        cells = []
+                        for row in tr[0]:
+                            cell = row
+                            if c[1] is not None:
+                                cell = row.elts[c[1]] if isinstance(
+                                    row, (ast.Tuple, ast.List)) and c[1] < \
+                                    len(row.elts) else None
+                            if not isinstance(cell, ast.Constant):
+                                cells = None
+                                break
+                            cells.append(cell.value)
+                        if cells is not None:
+                            rows = [(None,) * c[1] + (v,) if c[1] is not None
+                                    else v for v in cells]
                 if rows is not None:
                     try:
                         vals = [row if c[1] is None else row[c[1]]
@@ -914,7 +953,7 @@ class Flow:
                     rows.append(tuple(y.value for y in x.elts))
                 else:
                     return None
-            return rows if 0 < len(rows) <= 8 else None
+            return rows if 0 < len(rows) <= 24 else None
         if isinstance(it, ast.Call) and isinstance(it.func, ast.Name) and \
                 it.func.id in ('list', 'tuple') and len(it.args) == 1 and \
                 not it.keywords:
@@ -925,6 +964,15 @@ class Flow:
             if unparse(it.elt).replace('(', '').replace(')', '') == \
                     unparse(g.target).replace('(', '').replace(')', ''):
                 return self.const_rows(g.iter, fn, bind, _d + 1)
+            return None
+        if isinstance(it, ast.Call) and fn is not None:
+            # a helper that returns (a filtered copy of) a table
+            callee = self.resolve_call(it, fn)
+            if callee is not None:
+                rets = self._returns(callee)
+                if len(rets) == 1:
+                    b = self._bind_args(it, callee, fn, bind, 0, set())
+                    return self.const_rows(rets[0], callee, b, _d + 1)
             return None
         if isinstance(it, ast.Attribute) and isinstance(
                 it.value, ast.Name) and it.value.id in ('self', 'cls') and \
@@ -941,6 +989,13 @@ class Flow:
                     return self.const_rows(v, None, None, _d + 1)
             return None
         if isinstance(it, ast.Name):
+            if fn is not None and it.id in Q.params(fn.node) and \
+                    not self.defs(fn.node).get(it.id):
+                # a table handed in by the caller
+                pe = self.param_expr(it.id, fn, bind)
+                if pe is not None:
+                    return self.const_rows(pe[0], pe[1], pe[2], _d + 1)
+                return None
             if fn is not None and self._is_local(it.id, fn):
                 for sc in self._scope_chain(fn):
                     ds = self.defs(sc.node).get(it.id)
@@ -971,11 +1026,17 @@ class Flow:
         if _d > 4 or it is None:
             return None
         if isinstance(it, (ast.Tuple, ast.List)):
-            if 0 < len(it.elts) <= 8 and not any(
+            if 0 < len(it.elts) <= 24 and not any(
                     isinstance(x, ast.Starred) for x in it.elts):
                 return list(it.elts), fn, bind
             return None
         if isinstance(it, ast.Name):
+            if fn is not None and it.id in Q.params(fn.node) and \
+                    not self.defs(fn.node).get(it.id):
+                pe = self.param_expr(it.id, fn, bind)
+                if pe is not None:
+                    return self.table_rows(pe[0], pe[1], pe[2], _d + 1)
+                return None
             if fn is not None and self._is_local(it.id, fn):
                 for sc in self._scope_chain(fn):
                     ds = self.defs(sc.node).get(it.id)
@@ -1078,7 +1139,7 @@ class Flow:
                 e.func.id == 'getattr' and len(e.args) >= 2):
             return None
         ks = self.const_keys(e.args[1], fn, bind, _seen)
-        if not ks or len(ks) > 8 or not all(isinstance(k, str) for k in ks):
+        if not ks or len(ks) > 24 or not all(isinstance(k, str) for k in ks):
             return None
         out = set()
         for r in self.atoms(e.args[0], fn, bind, depth, _seen):
@@ -1256,6 +1317,45 @@ class Flow:
         return None
 
     # -- calls ---------------------------------------------------------------
+    def dynamic_methods(self, call, fn, bind=None):
+        """Methods a call dispatches to through `getattr(self, <names known
+        statically>)`: the call `getattr(self, k)(..)` itself, or the call
+        of a local bound once to such a getattr (a dispatch table of
+        handler names). [] when the call is not of that shape."""
+        if fn is None:
+            return []
+        f = call.func
+        g = None
+        if isinstance(f, ast.Call):
+            g = f
+        elif isinstance(f, ast.Name):
+            for sc in self._scope_chain(fn):
+                ds = self.defs(sc.node).get(f.id)
+                if ds:
+                    if len(ds) == 1 and ds[0][0] == 'value' and isinstance(
+                            ds[0][1], ast.Call) and sc is fn:
+                        g = ds[0][1]
+                    break
+        if g is None or not (isinstance(g.func, ast.Name) and
+                             g.func.id == 'getattr' and len(g.args) >= 2 and
+                             isinstance(g.args[0], ast.Name) and
+                             g.args[0].id in ('self', 'cls')):
+            return []
+        ks = self.const_keys(g.args[1], fn, bind)
+        ci = fn.cls
+        if not ks or ci is None:
+            return []
+        out = []
+        for k in ks:
+            if not isinstance(k, str):
+                return []
+            o, meth = ci.find_method(k)
+            if meth is None and k.startswith('__') and not k.endswith('__'):
+                o, meth = ci.find_method('_' + ci.name.lstrip('_') + k)
+            if meth is not None and getattr(meth, '_func', None):
+                out.append(meth._func)
+        return out
+
     def resolve_call(self, call, fn):
         """FuncInfo of the callee when it is a function of the repository."""
         if fn is None:
@@ -1347,6 +1447,24 @@ class Flow:
             elif isinstance(n, ast.YieldFrom):
                 out.append(n.value)
         return out
+
+    def _bind_args_method(self, call, meth, fn, bind, depth, _seen):
+        """Binding for a bound-method call whose receiver is implicit (the
+        callee was obtained with getattr(self, name)): positional arguments
+        start after `self`."""
+        a_ = meth.node.args
+        pos = [x.arg for x in a_.posonlyargs + a_.args]
+        if pos and pos[0] in ('self', 'cls'):
+            pos = pos[1:]
+        b = {'self': {'param:self'}}
+        for i, a in enumerate(call.args):
+            if isinstance(a, ast.Starred) or i >= len(pos):
+                break
+            b[pos[i]] = self.atoms(a, fn, bind, depth, _seen)
+        for k in call.keywords:
+            if k.arg:
+                b[k.arg] = self.atoms(k.value, fn, bind, depth, _seen)
+        return b
 
     def _bind_args(self, call, callee, fn, bind, depth, _seen):
         a_ = callee.node.args
@@ -1462,6 +1580,20 @@ class Flow:
                 out.add(self._alloc(e, fn))
             return out
         callee = self.resolve_call(e, fn)
+        if callee is None and depth < self.max_depth:
+            dyn = self.dynamic_methods(e, fn, bind)
+            if dyn:
+                # handler = getattr(self, '_' + name + '_flags'); handler(x)
+                for m in dyn:
+                    b = self._bind_args_method(e, m, fn, bind, depth, _seen)
+                    for r in self._returns(m):
+                        out |= self.atoms(r, m, b, depth + 1, _seen)
+                    out.add(m.qualname + '(' + self._arg_text(e) + ')')
+                for a in args:
+                    for x in A(a):
+                        if not x.startswith(('const:', 'key:', 'via:')):
+                            out.add('via:' + x)
+                return out
         if callee is not None and depth < self.max_depth:
             b = self._bind_args(e, callee, fn, bind, depth, _seen)
             rets = self._returns(callee)
